@@ -1,1 +1,211 @@
-/-! Property theorems for C13 (not built yet). -/
+import Cellml.C13.Lemmas
+import Cellml.C13.LoadLemmas
+
+/-! # C13 — annotations always point at exactly one live variable
+
+    Model: `Cellml/Model/Cmeta.lean` (`AState` = the C08 model state + the RDF triples; `astep`, `arun`; the lookups
+    `getVariableByCmetaId`, `byRdf`, `byTerm`, `termsOf`), `Cellml/Load/Connect.lean` (`stepConn`: the mover of
+    connection resolution, as repaired by commit df25620). Lemmas: `Cellml/C13/Lemmas.lean`, `Cellml/C13/LoadLemmas.lean`.
+
+    Every theorem quantifies over ALL states satisfying the invariant / ALL histories of calls of any length (valid
+    calls and calls that raise) / ALL documents. The tie to the Python code is `harness/props/c13.py`. -/
+
+namespace Cellml.Props.C13
+open Model
+
+-- ================================================================================================ the bijection
+/-- a new model satisfies the invariant, hence the bijection … -/
+theorem bij_init (mc : Option String) : AInv (ainit mc) ∧ Bij (ainit mc).m :=
+  ⟨ainv_init mc, bij_of_inv (ainv_init mc).inv⟩
+
+/-- … every call — `add_variable` (with or without id, clashing or not), `remove_variable`, `add_equation`,
+    `remove_equation`, `add_cmeta_id`, `transfer_cmeta_id`, the graph queries, `rdf.add`, `convert_variable` with
+    either setting of `move_annotations`, the loader's mover — whether it returns or raises, preserves it … -/
+theorem bij_step (a : AState) (op : AOp) (h : AInv a) : AInv (astep a op).1 ∧ Bij (astep a op).1.m :=
+  ⟨ainv_step h op, bij_of_inv (ainv_step h op).inv⟩
+
+/-- … so after every history each cmeta id belongs to at most one live variable and never to a variable and the
+    model at once; the registry holds exactly the pairs (id, live variable carrying it); `has_cmeta_id` is true exactly
+    of the model's id and the ids carried by live variables. -/
+theorem bij_reachable (mc : Option String) (ops : List AOp) : Bij (arun mc ops).m :=
+  bij_of_inv (ainv_run mc ops).inv
+
+theorem ainv_reachable (mc : Option String) (ops : List AOp) : AInv (arun mc ops) := ainv_run mc ops
+
+-- ================================================================================================ lookups
+/-- `get_variable_by_cmeta_id(c)` returns precisely the live variable that carries `c` now (found by looking at every
+    variable), and raises KeyError exactly when no live variable does -/
+theorem lookup_id (a : AState) (h : AInv a) (c : String) :
+    getVariableByCmetaId a.m c = carrierOf a.m c ∧
+    (∀ v, getVariableByCmetaId a.m c = some v ↔ (v ∈ a.m.live ∧ cmetaOf a.m v = some c)) ∧
+    (getVariableByCmetaId a.m c = none ↔ ∀ i ∈ a.m.live, cmetaOf a.m i ≠ some c) :=
+  ⟨lookup_eq_carrier (bij_of_inv h.inv) c, (bij_of_inv h.inv).lookup_iff c, lookup_none_iff (bij_of_inv h.inv) c⟩
+
+/-- `get_variables_by_rdf(predicate, object)` is the lookup computed from `variables()` alone; when it returns, it
+    returns one entry per matching triple, exactly the live variables whose CURRENT id is the subject of a matching
+    triple, in `order_added` order; it raises (KeyError) exactly when a matching triple is about an id that no live
+    variable carries (an annotation of the model itself, or of an unknown id) -/
+theorem lookup_rdf (a : AState) (h : AInv a) (p : String) (o : Option RNode) :
+    byRdf a p o = byRdfSpec a p o ∧
+    (∀ vs, byRdf a p o = .ok vs →
+      vs.length = (a.rdf.filter (tripleMatches p o)).length ∧
+      (∀ v, v ∈ vs ↔ v ∈ a.m.live ∧ ∃ t ∈ a.rdf, tripleMatches p o t = true ∧ cmetaOf a.m v = some t.subj) ∧
+      vs.Pairwise (fun x y => orderOf a.m x ≤ orderOf a.m y)) ∧
+    (∀ e, byRdf a p o = .error e ↔
+      (e = .keyError ∧ ∃ t ∈ a.rdf, tripleMatches p o t = true ∧ ∀ i ∈ a.m.live, cmetaOf a.m i ≠ some t.subj)) :=
+  ⟨byRdf_eq_spec (bij_of_inv h.inv) p o, fun _ hv => byRdf_ok (bij_of_inv h.inv) hv,
+   fun e => byRdf_error (bij_of_inv h.inv) p o e⟩
+
+/-- `get_variable_by_ontology_term(term)` returns `v` exactly when one triple says `… bqbiol:is term` and its subject
+    is the id `v` carries now; with no such triple it raises KeyError; and the term found a variable by is among the
+    terms reachable through that variable (`get_ontology_terms_by_variable`) -/
+theorem lookup_term (a : AState) (h : AInv a) (term : RNode) :
+    (∀ v, byTerm a term = .ok v ↔
+      ∃ c, a.rdf.filter (tripleMatches bqbiolIs (some term)) = [⟨c, bqbiolIs, term⟩] ∧ v ∈ a.m.live ∧
+        cmetaOf a.m v = some c) ∧
+    (a.rdf.filter (tripleMatches bqbiolIs (some term)) = [] → byTerm a term = .error .keyError) ∧
+    (∀ v, byTerm a term = .ok v → localName term.text ∈ termsOf a v none) :=
+  ⟨byTerm_ok_iff (bij_of_inv h.inv) term, byTerm_none term, fun _ hv => byTerm_reachable (bij_of_inv h.inv) hv⟩
+
+/-- a variable's annotations are reachable through it: `get_ontology_terms_by_variable(v, ns)` lists exactly the local
+    names of the objects of the `bqbiol:is` triples whose subject is the id `v` carries now -/
+theorem annotations_reachable (a : AState) (v : Nat) (ns : Option String) (x : String) :
+    x ∈ termsOf a v ns ↔
+      ∃ t ∈ a.rdf, cmetaOf a.m v = some t.subj ∧ t.pred = bqbiolIs ∧ nsOk ns t.obj = true ∧ localName t.obj.text = x :=
+  termsOf_mem
+
+-- ================================================================================================ edits
+/-- `remove_variable(v)` on a variable carrying `c`: the call returns; `v` is no longer in `variables()`; every triple
+    about `c` is gone and every other triple is kept; `c` is free again (`has_cmeta_id` false, lookup raises KeyError);
+    nobody else's id changes -/
+theorem remove_drops_annotations (a : AState) (h : AInv a) (v : Nat) (c : String) (hv : v ∈ a.m.live)
+    (hc : cmetaOf a.m v = some c) :
+    (astep a (.base (.removeVariable v))).2 = .ok ∧
+    v ∉ (astep a (.base (.removeVariable v))).1.m.live ∧
+    (∀ t, t ∈ (astep a (.base (.removeVariable v))).1.rdf ↔ (t ∈ a.rdf ∧ t.subj ≠ c)) ∧
+    hasCmetaId (astep a (.base (.removeVariable v))).1.m c = false ∧
+    getVariableByCmetaId (astep a (.base (.removeVariable v))).1.m c = none ∧
+    (∀ i, cmetaOf (astep a (.base (.removeVariable v))).1.m i = cmetaOf a.m i) ∧
+    (∀ i, i ∈ (astep a (.base (.removeVariable v))).1.m.live ↔ (i ∈ a.m.live ∧ i ≠ v)) := by
+  have hst : astep a (.base (.removeVariable v)) = removeVariableA a v := rfl
+  rw [hst]
+  obtain ⟨r1, r2, r3, r4, r5⟩ := removeVariableA_ok h.inv hv
+  have B := bij_of_inv h.inv
+  have B' : Bij (removeVariableA a v).1.m := bij_of_inv (by rw [← hst]; exact (ainv_step h _).inv)
+  have hlive : ∀ i, i ∈ (removeVariableA a v).1.m.live ↔ (i ∈ a.m.live ∧ i ≠ v) := by
+    intro i; rw [r2, h.inv.reg.liveNodup.mem_erase_iff]; exact And.comm
+  have hnone : ∀ i ∈ (removeVariableA a v).1.m.live, cmetaOf (removeVariableA a v).1.m i ≠ some c := by
+    intro i hi hci
+    obtain ⟨hi1, hi2⟩ := (hlive i).mp hi
+    rw [r4] at hci
+    exact hi2 (B.distinct i hi1 v hv c hci hc)
+  refine ⟨r1, fun hm => ((hlive v).mp hm).2 rfl, ?_, ?_, (lookup_none_iff B' c).mpr hnone, r4, hlive⟩
+  · intro t
+    rw [r5, hc, mem_dropSubject]
+    constructor
+    · rintro ⟨h1, h2⟩; exact ⟨h1, fun e => h2 (by rw [e])⟩
+    · rintro ⟨h1, h2⟩; exact ⟨h1, fun e => h2 (Option.some.inj e).symm⟩
+  · cases hh : hasCmetaId (removeVariableA a v).1.m c with
+    | false => rfl
+    | true =>
+      exfalso
+      rcases (B'.has_iff c).mp hh with hm | ⟨i, hi, hci⟩
+      · rw [r3] at hm; exact B.notModel v hv c hc hm
+      · exact hnone i hi hci
+
+/-- a variable that later receives the id of a removed variable starts without annotations: after
+    `remove_variable(v)`, `add_variable(n, cmeta_id=c)` (when it is accepted) creates a variable with no terms -/
+theorem readd_has_no_annotations (a : AState) (h : AInv a) (v : Nat) (c : String) (hv : v ∈ a.m.live)
+    (hc : cmetaOf a.m v = some c) (n : String) (iv : Option Rat) (ns : Option String) :
+    let a1 := (astep a (.base (.removeVariable v))).1
+    let a2 := (astep a1 (.base (.addVariable n (some c) iv))).1
+    (astep a1 (.base (.addVariable n (some c) iv))).2 = .ok → termsOf a2 a1.m.heap.length ns = [] := by
+  intro a1 a2 hok
+  obtain ⟨_, _, hrdf, hfree, _, _, _⟩ := remove_drops_annotations a h v c hv hc
+  have hnt : nameTaken a1.m n = false := by
+    cases hx : nameTaken a1.m n with
+    | false => rfl
+    | true =>
+      have : (astep a1 (.base (.addVariable n (some c) iv))).2 = .raised .valueError := by
+        show (addVariable a1.m n (some c) iv).2 = _
+        rw [addVariable_raised (Or.inl hx)]
+      rw [this] at hok; cases hok
+  obtain ⟨_, _, _, _, h5, _⟩ := addVariable_ok (s := a1.m) (n := n) (c := some c) (iv := iv) hnt hfree
+  have hcm : cmetaOf a2.m a1.m.heap.length = some c := by
+    show cmetaOf (addVariable a1.m n (some c) iv).1 a1.m.heap.length = some c
+    rw [h5]; simp
+  unfold termsOf annotationsOf
+  simp only [hcm]
+  have : a2.rdf = a1.rdf := rfl
+  rw [this]
+  have hemp : a1.rdf.filter (fun t => t.subj == c && t.pred == bqbiolIs) = [] := by
+    rw [List.filter_eq_nil_iff]
+    intro t ht
+    have := ((hrdf t).mp ht).2
+    simp [this]
+  rw [hemp]; rfl
+
+/-- `add_cmeta_id(v)` on a variable without id: the `while has_cmeta_id` loop terminates (the conventional out-of-fuel
+    answer of the model never occurs); the id is the first of `name'`, `name'_`, `name'__`, … (`name'` = the name with
+    `$` replaced by `__`) that is neither in use by a variable nor the model's own id; `v` carries it afterwards,
+    nobody else's id changes, and looking it up returns `v` -/
+theorem addCmetaId_fresh (a : AState) (h : AInv a) (v : Nat) (hv : v ∈ a.m.live) (hc : cmetaOf a.m v = none) :
+    ∃ (c : String) (k : Nat), c = cand ((nameOfVar a.m v).replace "$" "__") k ∧
+      (∀ j, j < k → hasCmetaId a.m (cand ((nameOfVar a.m v).replace "$" "__") j) = true) ∧
+      hasCmetaId a.m c = false ∧ a.m.modelCmeta ≠ some c ∧ (∀ i ∈ a.m.live, cmetaOf a.m i ≠ some c) ∧
+      (astep a (.base (.addCmetaId v))).2 = .ok ∧
+      (∀ i, cmetaOf (astep a (.base (.addCmetaId v))).1.m i = if i = v then some c else cmetaOf a.m i) ∧
+      (astep a (.base (.addCmetaId v))).1.m.live = a.m.live ∧
+      getVariableByCmetaId (astep a (.base (.addCmetaId v))).1.m c = some v := by
+  obtain ⟨c, k, he, hall, hfree, hok, hl, _, _, hcm, _⟩ := addCmetaId_ok h.inv.reg hv hc
+  have B := bij_of_inv h.inv
+  have B' := bij_of_inv (ainv_step h (.base (.addCmetaId v))).inv
+  have hnot : ¬ (a.m.modelCmeta = some c ∨ ∃ i ∈ a.m.live, cmetaOf a.m i = some c) := by
+    intro hx; have := (B.has_iff c).mpr hx; rw [hfree] at this; cases this
+  refine ⟨c, k, he, hall, hfree, fun hm => hnot (Or.inl hm), fun i hi hci => hnot (Or.inr ⟨i, hi, hci⟩), hok, hcm, hl, ?_⟩
+  exact (B'.lookup_iff c v).mpr ⟨by show v ∈ (addCmetaId a.m v).1.live; rw [hl]; exact hv,
+    by show cmetaOf (addCmetaId a.m v).1 v = some c; rw [hcm]; simp⟩
+
+/-- `add_cmeta_id` on a variable that already has an id does nothing -/
+theorem addCmetaId_keeps (a : AState) (v : Nat) (c : String) (hc : cmetaOf a.m v = some c) :
+    (astep a (.base (.addCmetaId v))).1 = a := by
+  show ({ a with m := (addCmetaId a.m v).1 } : AState) = a
+  rw [addCmetaId_noop (Or.inr (by rw [hc]; rfl))]
+
+/-- `transfer_cmeta_id(src, dst)`: raises ValueError — and changes nothing — when `src` has no id or `dst` already has
+    one; otherwise `src` loses the id, `dst` gains it, nothing else changes (no other variable, no triple), the id now
+    leads to `dst`, and so does every annotation that led to `src` -/
+theorem transfer_moves (a : AState) (h : AInv a) (src dst : Nat) (hs : src ∈ a.m.live) (hd : dst ∈ a.m.live) :
+    ((cmetaOf a.m src = none ∨ (cmetaOf a.m dst).isSome = true) →
+      astep a (.base (.transferCmetaId src dst)) = (a, .raised .valueError)) ∧
+    (∀ c, cmetaOf a.m src = some c → cmetaOf a.m dst = none →
+      (astep a (.base (.transferCmetaId src dst))).2 = .ok ∧
+      (∀ i, cmetaOf (astep a (.base (.transferCmetaId src dst))).1.m i =
+        if i = src then none else if i = dst then some c else cmetaOf a.m i) ∧
+      (astep a (.base (.transferCmetaId src dst))).1.m.live = a.m.live ∧
+      (astep a (.base (.transferCmetaId src dst))).1.rdf = a.rdf ∧
+      getVariableByCmetaId (astep a (.base (.transferCmetaId src dst))).1.m c = some dst ∧
+      (∀ term, byTerm a term = .ok src → byTerm (astep a (.base (.transferCmetaId src dst))).1 term = .ok dst)) := by
+  constructor
+  · intro hx
+    show (({ a with m := (transferCmetaId a.m src dst).1 } : AState), (transferCmetaId a.m src dst).2) = _
+    rw [transferCmetaId_raised hs hd hx]
+  · intro c hcs hcd
+    obtain ⟨t1, t2, _, _, t5, _⟩ := transferCmetaId_ok h.inv.reg hs hd hcs hcd
+    have B := bij_of_inv h.inv
+    have A' := ainv_step h (.base (.transferCmetaId src dst))
+    have B' := bij_of_inv A'.inv
+    have hne : src ≠ dst := by rintro rfl; rw [hcs] at hcd; cases hcd
+    have hdst : dst ∈ (astep a (.base (.transferCmetaId src dst))).1.m.live ∧
+        cmetaOf (astep a (.base (.transferCmetaId src dst))).1.m dst = some c := by
+      refine ⟨by show dst ∈ (transferCmetaId a.m src dst).1.live; rw [t2]; exact hd, ?_⟩
+      show cmetaOf (transferCmetaId a.m src dst).1 dst = some c
+      rw [t5, if_neg (Ne.symm hne), if_pos rfl]
+    refine ⟨t1, t5, t2, rfl, (B'.lookup_iff c dst).mpr hdst, ?_⟩
+    intro term hterm
+    obtain ⟨c', hl, _, hc'⟩ := (byTerm_ok_iff B term src).mp hterm
+    have : c' = c := by rw [hcs] at hc'; exact (Option.some.inj hc').symm
+    subst this
+    exact (byTerm_ok_iff B' term dst).mpr ⟨c', hl, hdst.1, hdst.2⟩
+
+end Cellml.Props.C13
